@@ -2,7 +2,11 @@
 
 package font
 
-import "github.com/go-text/typesetting/font/opentype/tables"
+import (
+	"errors"
+
+	"github.com/go-text/typesetting/font/opentype/tables"
+)
 
 // shared between GSUB and GPOS
 type Layout struct {
@@ -165,10 +169,14 @@ func newGSUB(table tables.Layout) (GSUB, error) {
 		for j, subtable := range subtables {
 			// start by resolving extension
 			if ext, isExt := subtable.(tables.ExtensionSubs); isExt {
-				subtables[j], err = ext.Resolve()
+				subtable, err = ext.Resolve()
 				if err != nil {
 					return GSUB{}, err
 				}
+				subtables[j] = subtable
+			}
+			if subtable.Cov() == nil {
+				return GSUB{}, errors.New("invalid GSUB lookup subtable (missing coverage)")
 			}
 
 			// sanitize each lookup
@@ -220,10 +228,14 @@ func newGPOS(table tables.Layout) (GPOS, error) {
 		for j, subtable := range subtables {
 			// start by resolving extension
 			if ext, isExt := subtable.(tables.ExtensionPos); isExt {
-				subtables[j], err = ext.Resolve()
+				subtable, err = ext.Resolve()
 				if err != nil {
 					return GPOS{}, err
 				}
+				subtables[j] = subtable
+			}
+			if subtable.Cov() == nil {
+				return GPOS{}, errors.New("invalid GPOS lookup subtable (missing coverage)")
 			}
 
 			// sanitize each lookup
